@@ -53,7 +53,7 @@ type File struct {
 	FlatSafe bool    `json:"flat_safe"` // task names carry the file id, so the file can be flattened
 	Tasks    []*Task `json:"tasks"`
 	Incs     []*Inc  `json:"includes"`
-	Text     string  `json:"-"`
+	Text     string  `json:"text"`
 }
 
 // Tree is one generated project.
@@ -511,7 +511,7 @@ func (g *gen) diamond(root int, pool *[]int) {
 }
 
 // Faults injected into an ok tree.
-var Faults = []string{"cycle-self", "cycle-2", "cycle-3", "missing", "missing-deep", "version", "no-version", "flatten-conflict", "flatten-conflict-siblings", "prefixed-collision"}
+var Faults = []string{"cycle-self", "cycle-2", "cycle-3", "missing", "missing-deep", "version", "no-version", "flatten-conflict", "flatten-conflict-siblings", "prefixed-collision", "cycle-deep-sibling"}
 
 // GenFault generates a tree with one fault that must be reported as an error.
 func GenFault(r *rand.Rand, idx int, fault string, next func() []string) *Tree {
@@ -567,6 +567,8 @@ func GenFault(r *rand.Rand, idx int, fault string, next func() []string) *Tree {
 		g.addInc(par, c, []string{"flatten", "vars"})
 	case "prefixed-collision":
 		// the parent itself defines "<ns>:build"
+	case "cycle-deep-sibling":
+		g.cycleNextToChain(pick)
 	}
 	g.fill(false)
 	if fault == "prefixed-collision" {
@@ -667,6 +669,8 @@ func GenFaultBelowOptional(r *rand.Rand, idx int, fault string, depth int, next 
 	case "prefixed-collision":
 		c := g.newFile(false)
 		collide = g.addInc(site, c, nil)
+	case "cycle-deep-sibling":
+		g.cycleNextToChain(site)
 	}
 	g.fill(false)
 	if collide != nil {
@@ -677,4 +681,25 @@ func GenFaultBelowOptional(r *rand.Rand, idx int, fault string, depth int, next 
 	t.BelowOpt = depth
 	t.Render()
 	return t
+}
+
+// cycleNextToChain gives site an include cycle and, next to it, a sibling with
+// a long chain of nested includes: the cycle is found while the readers of the
+// chain still have to register their edges.
+func (g *gen) cycleNextToChain(site int) {
+	c := g.newFile(false)
+	g.addInc(site, c, nil)
+	if g.r.Intn(2) == 0 {
+		g.addInc(c, c, nil)
+	} else {
+		c2 := g.newFile(false)
+		g.addInc(c, c2, nil)
+		g.addInc(c2, c, nil)
+	}
+	prev := site
+	for n := 10 + g.r.Intn(31); n > 0; n-- {
+		s := g.newFile(false)
+		g.addInc(prev, s, nil)
+		prev = s
+	}
 }
